@@ -93,8 +93,11 @@ def optHex : Option String → String
   | none => "?"
   | some s => hexStr s
 
+/-- `[x,y,…]` -/
+def bracketToks (l : List String) : String := "[" ++ ",".intercalate l ++ "]"
+
 mutual
-  partial def Card.toTok : Card → String
+  def Card.toTok : Card → String
     | .bin k a b => k.name ++ "(" ++ a.toTok ++ "," ++ b.toTok ++ ")"
     | .un k c => k.name ++ "(" ++ c.toTok ++ ")"
     | .tri k a b c => k.name ++ "(" ++ a.toTok ++ "," ++ b.toTok ++ "," ++ c.toTok ++ ")"
@@ -110,26 +113,38 @@ mutual
     | .readVar s => "readvar(" ++ hexStr s ++ ")"
     | .setVar s c => "setvar(" ++ hexStr s ++ "," ++ c.toTok ++ ")"
     | .setGlobalVar s c => "setglobal(" ++ hexStr s ++ "," ++ c.toTok ++ ")"
-    | .callNative s a => "callnative(" ++ hexStr s ++ "," ++ cardsTok a ++ ")"
-    | .call s a => "call(" ++ hexStr s ++ "," ++ cardsTok a ++ ")"
+    | .callNative s a => "callnative(" ++ hexStr s ++ "," ++ bracketToks (Card.toToks a) ++ ")"
+    | .call s a => "call(" ++ hexStr s ++ "," ++ bracketToks (Card.toToks a) ++ ")"
     | .repeat i n b => "repeat(" ++ optHex i ++ "," ++ n.toTok ++ "," ++ b.toTok ++ ")"
     | .forEach i k v it b =>
       "foreach(" ++ optHex i ++ "," ++ optHex k ++ "," ++ optHex v ++ "," ++ it.toTok ++ "," ++ b.toTok ++ ")"
-    | .composite ty cs => "composite(" ++ hexStr ty ++ "," ++ cardsTok cs ++ ")"
-    | .dynamicCall a f => "dyncall(" ++ cardsTok a ++ "," ++ f.toTok ++ ")"
-    | .array cs => "array(" ++ cardsTok cs ++ ")"
-    | .closure args cs => "closure([" ++ ",".intercalate (args.map hexStr) ++ "]," ++ cardsTok cs ++ ")"
-  partial def cardsTok (cs : List Card) : String := "[" ++ ",".intercalate (cs.map Card.toTok) ++ "]"
+    | .composite ty cs => "composite(" ++ hexStr ty ++ "," ++ bracketToks (Card.toToks cs) ++ ")"
+    | .dynamicCall a f => "dyncall(" ++ bracketToks (Card.toToks a) ++ "," ++ f.toTok ++ ")"
+    | .array cs => "array(" ++ bracketToks (Card.toToks cs) ++ ")"
+    | .closure args cs =>
+      "closure([" ++ ",".intercalate (args.map hexStr) ++ "]," ++ bracketToks (Card.toToks cs) ++ ")"
+  /-- `cs.map Card.toTok` (structural recursion over the nested list) -/
+  def Card.toToks : List Card → List String
+    | [] => []
+    | c :: cs => c.toTok :: Card.toToks cs
 end
+
+def cardsTok (cs : List Card) : String := bracketToks (Card.toToks cs)
 
 def Func.toTok (name : String) (f : Func) : String :=
   "fn(" ++ hexStr name ++ ",[" ++ ",".intercalate (f.arguments.map hexStr) ++ "]," ++ cardsTok f.cards ++ ")"
 
-partial def Module.toTok : Module → String
-  | .mk subs fns imps =>
-    "mod([" ++ ",".intercalate (imps.map hexStr) ++ "],[" ++
-      ",".intercalate (fns.map (fun (n, f) => f.toTok n)) ++ "],[" ++
-      ",".intercalate (subs.map (fun (n, m) => "sub(" ++ hexStr n ++ "," ++ m.toTok ++ ")")) ++ "])"
+mutual
+  def Module.toTok : Module → String
+    | .mk subs fns imps =>
+      "mod([" ++ ",".intercalate (imps.map hexStr) ++ "],[" ++
+        ",".intercalate (fns.map (fun (n, f) => f.toTok n)) ++ "],[" ++
+        ",".intercalate (Module.subsToks subs) ++ "])"
+  /-- `subs.map (fun (n, m) => "sub(" ++ hexStr n ++ "," ++ m.toTok ++ ")")` -/
+  def Module.subsToks : List (String × Module) → List String
+    | [] => []
+    | (n, m) :: rest => ("sub(" ++ hexStr n ++ "," ++ m.toTok ++ ")") :: Module.subsToks rest
+end
 
 /-! ### parser (recursive descent over `List Char`, fuel = input length) -/
 namespace Parse
